@@ -468,9 +468,25 @@ def run(tier, replay=None):
         for e in errs:
             print(e)
         return 1 if errs else 0
-    cfg = 'MC_Registry_q.cfg' if tier == 'quick' else 'MC_Registry_t.cfg'
-    r = run_tlc('MC_Registry', cfg, timeout=7200)
-    V.add_tlc(r, 'Registry histories ' + cfg)
+    # exhaustive at the small bound; the thorough tier adds random longer
+    # histories over all class sets (TLC simulation mode): exhaustive
+    # exploration at that size is some 10^8 histories
+    r = run_tlc('MC_Registry', 'MC_Registry_q.cfg', timeout=7200)
+    V.add_tlc(r, 'Registry histories MC_Registry_q.cfg (exhaustive)')
+    if tier != 'quick':
+        rs = run_tlc('MC_Registry', 'MC_Registry_t.cfg', timeout=7200,
+                     simulate='num=40000', depth=8, seed=SEED,
+                     name='MC_Registry_sim')
+        if rs.error:
+            raise MachineryError('Registry simulation failed: %s' % rs.error)
+        if rs.violated:
+            V.add_tlc(rs, 'Registry histories MC_Registry_t.cfg (simulation)')
+        else:
+            V.tlc_runs.append({'what': 'Registry histories MC_Registry_t.cfg '
+                               '(simulation, %d behaviours of 6 operations '
+                               'over 3 functions)' % len(rs.cases),
+                               'violated': [], 'wall_s': round(rs.wall, 1)})
+        r.cases.extend(rs.cases)
     # threads: all interleavings of concurrent loads over the shared
     # Constructor cell (model level), the racy schedule replayed for real
     rt = run_tlc('LoadThreads', 'LoadThreads.cfg', timeout=600,
@@ -498,7 +514,7 @@ def run(tier, replay=None):
     import random
     rnd = random.Random(SEED)
     rnd.shuffle(cases)
-    limit = 2000 if tier == 'quick' else 60000
+    limit = 2000 if tier == 'quick' else 30000
     names = {'A1': 'A', 'A2': 'A', 'B': 'B', 'E': 'E', 'S1': 'S', 'S2': 'S'}
 
     def score(c):
